@@ -4,9 +4,40 @@ RUNTIME_TB = ["R-SUM's specification table in lexlint/rules_runtime.py (the cont
               "runtime methods and 4 constructors)"]
 
 
+GEN_ALL = {"P1", "P2", "P3", "P4", "P5", "P6", "P7", "P8", "P9", "R-SAVED", "R-BSEARCH", "R-NAMES",
+           "R-WHO", "R-PANIC", "R-CTOR", "R-SUGAR"}
+FLOORS = {"ops": 60, "munch": 38, "rulesets": 20, "rctx": 34, "eoi": 12, "classes": 70, "builtins": 33,
+          "prec": 100, "actions": 4, "modules": 8, "illformed": 50}
+
+
+def c01(ctx, env):
+    env.src(ctx, ["R-WL", "R-EXH", "R-ORDER"])
+    env.runtime(ctx, {"R-SUM", "R-PAIR"})
+    env.replay_gen(ctx, {"R-SAVED", "P5", "P6", "P9"})
+    env.witnesses(ctx, ["munch", "ops", "rctx", "rulesets"],
+                  {"TV", "TV-CTX", "COMPILE", "R-SAVED", "P5", "P6", "P9", "R-BSEARCH"}, FLOORS)
+
+
+def c02(ctx, env):
+    env.src(ctx, ["R-FLOW", "R-EXH"])
+    env.witnesses(ctx, ["ops", "classes", "prec"], {"TV", "COMPILE", "R-BSEARCH", "P9"}, FLOORS)
+
+
+def c03(ctx, env):
+    env.runtime(ctx, {"R-SUM", "R-WHO"})
+    env.replay_gen(ctx, {"P7", "P5", "P6", "P9", "R-WHO"})
+    env.witnesses(ctx, ["rulesets", "actions"], {"TV", "COMPILE", "P7", "P5", "P6", "P9", "R-WHO"}, FLOORS)
+
+
+def c04(ctx, env):
+    env.replay_gen(ctx, {"P8", "P9", "R-BSEARCH"})
+    env.witnesses(ctx, ["rctx", "modules"], {"TV", "TV-CTX", "COMPILE", "P8", "P9", "R-BSEARCH"}, FLOORS)
+
+
 def c05(ctx, env):
     env.runtime(ctx, {"R-SUM", "R-WHO"})
     env.replay_gen(ctx, {"P1", "P2", "P3", "P4", "P9", "R-WHO"})
+    env.witnesses(ctx, ["eoi"], {"TV", "COMPILE", "P1", "P2", "P3", "P4", "P9"}, FLOORS)
 
 
 def c06(ctx, env):
@@ -17,34 +48,223 @@ def c06(ctx, env):
 def c07(ctx, env):
     env.runtime(ctx, {"R-SUM"})
     env.replay_gen(ctx, {"P5", "P6", "R-SAVED", "P9"})
+    env.witnesses(ctx, ["munch", "actions"], {"TV", "COMPILE", "P5", "P6", "R-SAVED", "P9"}, FLOORS)
 
 
 def c08(ctx, env):
     env.runtime(ctx, {"R-SUM", "R-WHO"})
     env.replay_gen(ctx, {"P6", "P7", "P9", "R-WHO"})
+    env.witnesses(ctx, ["rulesets"], {"COMPILE", "P6", "P7", "P9", "R-WHO"}, FLOORS)
 
 
 def c09(ctx, env):
     env.runtime(ctx, {"R-PANIC", "R-SUM"})
     env.replay_gen(ctx, {"R-PANIC", "P1", "P2", "P5", "P9", "R-BSEARCH"})
+    env.witnesses(ctx, ["munch", "rctx", "builtins"],
+                  {"COMPILE", "R-PANIC", "P1", "P2", "P5", "P9", "R-BSEARCH", "TV-CTX"}, FLOORS)
 
 
 def c10(ctx, env):
     env.runtime(ctx, {"R-SUM", "R-WHO"})
     env.replay_gen(ctx, {"P5", "P9", "R-SUGAR", "R-WHO"})
+    env.witnesses(ctx, ["actions"], {"COMPILE", "P5", "P9", "R-SUGAR", "R-WHO", "TV"}, FLOORS)
+
+
+def c11(ctx, env):
+    env.tables(ctx, ["R-DATA"])
+    env.replay_gen(ctx, {"R-BSEARCH"})
+    env.witnesses(ctx, ["classes"], {"TV", "COMPILE", "R-BSEARCH", "P9"}, FLOORS)
+
+
+def c12(ctx, env):
+    env.src(ctx, ["R-DET", "R-WL"])
+    env.replay_gen(ctx, {"R-NAMES"})
+    env.witnesses(ctx, ["modules", "rctx", "builtins", "rulesets", "classes", "munch"],
+                  {"COMPILE", "R-NAMES"}, FLOORS)
+
+
+def c13(ctx, env):
+    env.tables(ctx, ["R-MAP", "R-DATA", "R-ORACLE"])
+    env.replay_gen(ctx, {"R-BSEARCH"})
+    env.witnesses(ctx, ["builtins"], {"TV", "COMPILE", "R-BSEARCH", "P9"}, FLOORS)
 
 
 def c14(ctx, env):
     env.runtime(ctx, {"R-SUM", "R-CTOR", "R-WHO"})
     env.replay_gen(ctx, {"R-CTOR", "R-WHO"})
+    env.witnesses(ctx, ["modules", "actions"], {"COMPILE", "R-CTOR", "R-WHO"}, FLOORS)
 
 
 def c15(ctx, env):
     env.runtime(ctx, {"R-TYPES"})
     env.replay_gen(ctx, {"R-WHO"})
+    env.witnesses(ctx, ["modules"], {"COMPILE", "R-WHO"}, FLOORS)
+    from . import rules_who as rw
+    check_generated_statics(ctx, env)
+
+
+def check_generated_statics(ctx, env):
+    """Generated items define no mutable / non-Freeze static (repository expansions)."""
+    from . import lts
+    n = 0
+    for cn in ("tests", "bugs", "right_ctx", "lua_5_1"):
+        cr = env.prog.crate(cn, test=True)
+        for s in cr.data["statics"]:
+            if s["from_expansion"] and s.get("expn_macro") == "lexgen::lexer":
+                n += 1
+                ctx.ob("R-TYPES", "generated static %s is immutable and Freeze" % s["path"],
+                       not s["mutable"] and s["freeze"], key="R-TYPES:gen-static:" + s["path"],
+                       where=s["span"])
+    ctx.count("generated_statics", n)
+
+
+def c16(ctx, env):
+    env.src(ctx, ["R-PARSE", "R-SCOPE"])
+    env.witnesses(ctx, ["prec", "illformed"], {"TV", "COMPILE", "REJECT"}, FLOORS)
+
+
+def c17(ctx, env):
+    env.src(ctx, ["R-CHK"])
+    env.witnesses(ctx, ["illformed"], {"REJECT", "COMPILE"}, FLOORS)
+
+
+def c18(ctx, env):
+    env.tables(ctx, ["R-GEN", "R-DATA"])
 
 
 PROPS = {
+    "C01": {
+        "run": c01, "level": "translation_validation",
+        "title": "Longest match, first-rule priority, rewinding",
+        "technique": "translation validation by static analysis: LTS extracted from the MIR of the "
+                     "generated lexer vs an independent reference automaton (bisimulation), plus "
+                     "may-saved typestate on every expansion and worklist-progress rules on the macro",
+        "explanation": "For every witness definition (families munch, ops, rctx, rulesets) the "
+                       "labelled transition system extracted from the generated next() is bisimilar "
+                       "to the reference automaton built from the same definition: same successor "
+                       "for every character and end of input, same save decision (first-priority "
+                       "rule, contexts as predicates) on entering every state, immediate accepts "
+                       "and dead states in the same places. With R-SAVED (no in-place error where a "
+                       "match may be saved), P5/P6 (saved match cleared exactly when an action "
+                       "runs) and R-SUM/R-PAIR (rewind restores the snapshot) this is maximal munch "
+                       "for all inputs. For all definitions: update_backtracks is a monotone "
+                       "worklist (R-WL), every pass treats all four transition kinds (R-EXH), "
+                       "accepting states are collected in rule order (R-ORDER).",
+        "trusted_base": RUNTIME_TB + ["lexlint/refsem.py (reference semantics per README)"],
+        "assumptions": ["definitions outside the witness corpus are covered only by the "
+                        "all-definition rules (R-WL, R-EXH, R-ORDER) and the per-expansion typestate"],
+    },
+    "C02": {
+        "run": c02, "level": "translation_validation",
+        "title": "Regex operators denote their documented languages",
+        "technique": "translation validation (extracted LTS vs reference automaton) on a "
+                     "bounded-exhaustive family of operator trees; dependency rule on the subset construction",
+        "explanation": "Every operator tree up to the enumerated size over atoms 'a' 'b' ['a'-'c'] "
+                       "['b'-'d'] _ \"ab\" $v (family ops), the class algebra family and the "
+                       "precedence family are bisimilar to their reference automata; equal-language "
+                       "pairs are separate witnesses related to the same reference. R-FLOW: DFA "
+                       "transition targets depend on char, covering range and `_` NFA targets; "
+                       "R-EXH: all four kinds consulted.",
+        "trusted_base": ["lexlint/refsem.py"],
+    },
+    "C03": {
+        "run": c03, "level": "translation_validation",
+        "title": "Rule sets isolated; entered only by switch or failure reset",
+        "technique": "translation validation per rule set entry + typestate on __state/__initial_state writers",
+        "explanation": "P7: switch maps each rule-set variant to one constant stored in __state and "
+                       "__initial_state; for every witness (family rulesets: 1-4 rule sets, all "
+                       "orders, empty sets, dropped and inlined states before later entries) the "
+                       "node of that constant is bisimilar to the reference automaton of that rule "
+                       "set alone. On all expansions: __state/__initial_state are written only by "
+                       "constructors, switch, transitions, the post-action return to "
+                       "__initial_state and failure resets (R-WHO, P5, P6, P9).",
+        "trusted_base": RUNTIME_TB + ["lexlint/refsem.py"],
+    },
+    "C04": {
+        "run": c04, "level": "translation_validation",
+        "title": "Right context gates a match without consuming input",
+        "technique": "translation validation of context acceptors and of the main LTS with contexts "
+                     "as predicates; ownership rule on the context argument",
+        "explanation": "Every context function of the rctx witnesses is bisimilar to the reference "
+                       "acceptor of 'some prefix of the rest, end-of-input visible, is in L(ctx)'; "
+                       "the main LTS agrees with the reference for every assignment of context "
+                       "outcomes (a failed context = candidate absent); P8: contexts run on a clone "
+                       "of the iterator and take it by value, so nothing is consumed.",
+        "trusted_base": ["lexlint/refsem.py"],
+    },
+    "C11": {
+        "run": c11, "level": "translation_validation",
+        "title": "Character-class algebra exact at every code point",
+        "technique": "translation validation: exact interval sets on extracted edges vs reference sets",
+        "explanation": "For every class expression of family classes (overlaps, end points, removed "
+                       "range spanning several pieces / equal to a piece / touching, chained #, _, "
+                       "built-ins, surrogate boundary) the interval set labelling each extracted "
+                       "edge equals the reference set at every scalar value; search tables are "
+                       "sorted/disjoint/scalar (R-BSEARCH, R-DATA). NOT decided: arbitrary operation "
+                       "sequences on RangeMap (needs symbolic arithmetic, outside this family).",
+        "trusted_base": ["lexlint/refsem.py", "lexlint/ivl.py"],
+        "assumptions": ["only the RangeMap operation sequences induced by the witness expressions "
+                        "are covered"],
+    },
+    "C12": {
+        "run": c12, "level": "other",
+        "title": "Expansion terminates, is deterministic, output compiles",
+        "technique": "type rule (no RandomState), worklist-progress idioms, compile-pass witnesses, naming rule",
+        "explanation": "R-DET: no nondeterministically seeded container or API in crate lexgen; R-WL: "
+                       "the three worklists match a progress idiom; compile-pass of witnesses with "
+                       "contexts of every shape, repeated bracket characters, large built-ins, "
+                       "several rule sets and two table-using lexers in one module; R-NAMES on every "
+                       "expansion. A witness whose expansion exceeds the watchdog is reported.",
+        "assumptions": ["termination of generate_state's recursion is argued on paper (DESIGN 7)"],
+    },
+    "C13": {
+        "run": c13, "level": "translation_validation",
+        "title": "Built-in classes = Rust predicates",
+        "technique": "exhaustive data comparison by interval arithmetic + name/variant/table/predicate "
+                     "bijection + translation validation of both membership shapes",
+        "explanation": "R-MAP: name, variant, table and generator predicate agree (20 each, "
+                       "bijective); R-DATA: tables well-formed; R-ORACLE: each table equals the "
+                       "toolchain's predicate at all 1,112,064 scalar values (7 tables predate the "
+                       "toolchain's Unicode version: known finding K1); builtins witnesses: "
+                       "extracted edge sets equal the table for guard chains and for search tables "
+                       "(comparator verified by R-BSEARCH).",
+        "trusted_base": ["tools/oracle (core + unicode-xid predicates of the installed toolchain)"],
+    },
+    "C16": {
+        "run": c16, "level": "translation_validation",
+        "title": "Documented precedence and variable scoping",
+        "technique": "parser-structure rules on resolved calls + translation validation of minimally "
+                     "parenthesised printings",
+        "explanation": "R-PARSE: levels call only the next level, each level consumes exactly its "
+                       "operator tokens, binary levels are left-associative, the concatenation "
+                       "continuation set equals the atom start set; R-SCOPE: rule sets get a clone "
+                       "of the bindings. prec witnesses: every operator pair/triple printed with "
+                       "minimal and with full parentheses is bisimilar to the reference of the "
+                       "intended tree; compile-fail witness for a rule-set-local variable used in "
+                       "another rule set, with compiling twin.",
+        "trusted_base": ["lexlint/refsem.py", "lexlint/rx.py printer"],
+    },
+    "C17": {
+        "run": c17, "level": "other",
+        "title": "Ill-formed definitions rejected",
+        "technique": "check-presence rules (failure path diverges) + compile-fail witnesses with compiling twins",
+        "explanation": "R-CHK: each rejection check exists on the resolved API and its failure path "
+                       "diverges or returns a compile error; 28 compile-fail witnesses each with a "
+                       "compiling twin differing only in the offending line.",
+    },
+    "C18": {
+        "run": c18, "level": "proof",
+        "title": "Table generator exact for any predicate",
+        "technique": "abstract interpretation of one loop iteration and of the exit path (state "
+                     "variable = open range), provenance of pushed end points",
+        "explanation": "Iteration table over {closed, open} x {not a char, f true, f false}: state "
+                       "unchanged / opened at i / start kept / exactly one push and closed / "
+                       "nothing; flush: an open range is pushed after the loop; provenance: pushed "
+                       "end points are values the loop variable had while the predicate held, never "
+                       "arithmetic. With the loop being 0..=char::MAX ascending this is the "
+                       "inductive argument for sorted, disjoint, maximal, scalar-ended ranges for "
+                       "any predicate. R-DATA for the 20 committed tables.",
+    },
     "C05": {
         "run": c05, "level": "other",
         "title": "End-of-input protocol",
